@@ -44,7 +44,10 @@ def eval_text(eng, st, fid, text, extra=None):
         gd = getattr(eng, "ghost_defs", None)
         if gd:
             for k, t in gd.items():
-                eng.setvar(st, sub, k, eng.eval1(parse_expr(t), st, sub))
+                if isinstance(t, dict):
+                    eng.setvar(st, sub, k, _opaque_def(eng, st, sub, k, t))
+                else:
+                    eng.setvar(st, sub, k, eng.eval1(parse_expr(t), st, sub))
         try:
             rs = eng.eval_fork(node, st, sub)
         except Unsupported as e:
@@ -59,6 +62,51 @@ def eval_text(eng, st, fid, text, extra=None):
     if isinstance(v, _Raised):
         raise Unsupported(f"contract clause raises: {text}")
     return eng.deref(st, v)
+
+
+def _opaque_def(eng, st, sub, name, spec):
+    """ghost function kept opaque: applications are uninterpreted; the defining axiom
+    forall args: name(args) == body(args) is a hypothesis only of obligations whose label
+    contains one of spec["reveal"] (hide definitions the proof does not need)"""
+    import z3
+    from .heap import Builtin
+
+    clo = eng.eval1(parse_expr(spec["opaque"]), st, sub)
+    table = eng.__dict__.setdefault("opaque_fns", {})
+
+    def kind_of(a):
+        if isinstance(a, bool):
+            raise Unsupported("opaque ghost function applied to a bool")
+        if isinstance(a, int):
+            return "int"
+        if isinstance(a, Fraction):
+            return "real"
+        if isinstance(a, Sym) and a.kind in ("int", "real"):
+            return a.kind
+        raise Unsupported(f"opaque ghost function {name} applied to {a!r}")
+
+    def call(eng_, st_, *args):
+        args = [eng_.deref(st_, a) for a in args]
+        kinds = tuple(kind_of(a) for a in args)
+        key = (eng_.unit, name, kinds)
+        ent = table.get(key)
+        if ent is None:
+            bv = [z3.Const(f"{name}!x{i}", z3.IntSort() if k_ == "int" else z3.RealSort()) for i, k_ in enumerate(kinds)]
+            rs = eng_.call_closure(st_, clo, [Sym(v, k_) for v, k_ in zip(bv, kinds)], {})
+            if len(rs) != 1:
+                raise Unsupported(f"opaque ghost function {name}: body forks")
+            body = V.as_arith(eng_.deref(st_, rs[0][1]))
+            if not isinstance(body, Sym):
+                raise Unsupported(f"opaque ghost function {name}: constant body")
+            f = z3.Function(f"{name}!op{len(table)}", *[v.sort() for v in bv], body.t.sort())
+            ax = z3.ForAll(bv, f(*bv) == body.t, patterns=[f(*bv)])
+            ent = (f, body.kind, ax, list(spec.get("reveal", [])))
+            table[key] = ent
+        f, rk, ax, rv = ent
+        zargs = [V.int_term(a) if k_ == "int" else V.real_term(a) for a, k_ in zip(args, kinds)]
+        return Sym(f(*zargs), rk)
+
+    return Builtin(name, call, True)
 
 
 from .unitdef import Unit, norm_clauses  # noqa: E402,F401
@@ -166,7 +214,17 @@ def prove_unit(eng: Engine, unit: Unit, prop: str):
     eng.entry_state = entry
     eng.entry_fid = fid
     genv.update(_olds(eng, unit, entry, fid))  # old_<param> is visible to loop invariants too
+    eng.cuts, eng.cuts_hit = {}, set()
+    if unit.opts.get("cuts"):
+        # block contracts on straight-line code of the function: assert, forget, assume
+        from .loops import register_cuts
+
+        register_cuts(eng, fnode.body, unit.opts["cuts"])
     outs = eng.exec_block(fnode.body, st, fid)
+    if unit.opts.get("cuts"):
+        for c_ in sorted(set(unit.opts["cuts"]) - eng.cuts_hit):
+            eng.notes.append(f"{unit.id}: cut statement {c_!r} not found (hint skipped)")
+    eng.cuts, eng.cuts_hit = {}, set()
     nret = 0
     for s2, oc in outs:
         if oc.kind == "raise":
